@@ -77,12 +77,14 @@ Goal True. idtac "ASSUMPTIONS-OF C11_example". Abort.
 Print Assumptions C11_example.
 
 (* READER LEVEL, whole files (the layout class of C12's whole-file theorem: one-line and continued
-   statements, full-line comments with any indentation, empty lines; any number, any order).
+   statements, comment and empty lines between statements and between the lines of a continued
+   statement; any number, any order).
    Kept: every comment line and every empty line is delivered exactly once, in source order, as a
    comment item spanning exactly its own physical line.  Ignored: no comment item is delivered.
    Either way the statements delivered (text, label, construct name) are those of the source with its
-   comment and empty lines deleted: ignoring comments is without effect on the statements, and so is
-   keeping them. *)
+   comment and empty lines deleted -- those between the lines of a continued statement included
+   (strip_comments); such comments are delivered right after their statement: ignoring comments is
+   without effect on the statements, and so is keeping them. *)
 From FV Require Reader.
 From FV Require Import ReaderJoin ReaderItem ReaderFile.
 Theorem C11_reader_comments_kept_once_in_place_partial :
@@ -93,10 +95,10 @@ Goal True. idtac "ASSUMPTIONS-OF C11_reader_comments_kept_once_in_place_partial"
 Print Assumptions C11_reader_comments_kept_once_in_place_partial.
 
 Theorem C11_reader_comments_ignored_without_effect_partial :
-  forall ls ign, Forall good ls -> Forall good (filter is_stmt ls) ->
+  forall ls ign, Forall good ls -> Forall good (map strip_comments (filter is_stmt ls)) ->
     comment_items (Reader.read_source (flat_map phys ls) true false true) = [] /\
     stmt_texts (Reader.read_source (flat_map phys ls) true false ign)
-    = stmt_texts (Reader.read_source (flat_map phys (filter is_stmt ls)) true false true).
+    = stmt_texts (Reader.read_source (flat_map phys (map strip_comments (filter is_stmt ls))) true false true).
 Proof. exact read_comments_ignored. Qed.
 Goal True. idtac "ASSUMPTIONS-OF C11_reader_comments_ignored_without_effect_partial". Abort.
 Print Assumptions C11_reader_comments_ignored_without_effect_partial.
